@@ -211,6 +211,7 @@ def ixor (a b : Int) : Int :=
 def bitor (a b : Val) : Val :=
   match a, b with
   | bool_ x, bool_ y => bool_ (x || y)
+  | tup x, tup y => tup (x ++ y.filter (fun v => !(x.any (fun w => eq v w))))   -- `|` on two sets (duplicate-free lists)
   | a, b => match kind a, kind b with
     | .i, .i => int (ior (toInt a) (toInt b))
     | _, _ => err
@@ -471,6 +472,92 @@ def divmod_ (R : Rounding) (prec : Nat) (a b : Val) : Val :=
 `except SomeError:` is entered whenever the value just computed is `err`, whatever the exception type. -/
 def isErr (a : Val) : Bool :=
   match a with | err => true | _ => false
+
+/-! ## Objects, infinities, comprehensions, sets (translated classes)
+
+* An instance of a translated class is `tup (str "<ClassName>" :: fields)` with the fields in the order the class
+  body and then the methods first mention them; `obj.attr` is `getItem obj (k+1)`, `self.attr = v` is `setField`.
+* `math.inf` / `-math.inf`: `Val` has no non-finite floats; they are the sentinels `posInf` / `negInf` (otherwise
+  ill-typed operands) understood by the *extended* comparisons `ltE` … and `minE` / `maxE`, which the translator uses
+  in every unit that mentions `math.inf` and which agree with `lt` … on all other values.
+* A `set` is a duplicate-free list in insertion order (`set_add`, `bitor` on two lists = union). -/
+
+def posInf : Val := str "inf"
+def negInf : Val := str "-inf"
+def infSign (a : Val) : Int :=
+  match a with
+  | str s => if s = "inf" then 1 else if s = "-inf" then -1 else 0
+  | _ => 0
+def ltE (a b : Val) : Bool := if infSign a = 0 ∧ infSign b = 0 then lt a b else decide (infSign a < infSign b)
+def leE (a b : Val) : Bool := if infSign a = 0 ∧ infSign b = 0 then le a b else decide (infSign a ≤ infSign b)
+def gtE (a b : Val) : Bool := if infSign a = 0 ∧ infSign b = 0 then gt a b else decide (infSign a > infSign b)
+def geE (a b : Val) : Bool := if infSign a = 0 ∧ infSign b = 0 then ge a b else decide (infSign a ≥ infSign b)
+def minE (l : List Val) : Val :=
+  match l with
+  | [] => err
+  | x :: xs => xs.foldl (fun m v => if ltE v m then v else m) x
+def maxE (l : List Val) : Val :=
+  match l with
+  | [] => err
+  | x :: xs => xs.foldl (fun m v => if gtE v m then v else m) x
+/-- `max(iterable)` / `min(iterable)` -/
+def maxOf (a : Val) : Val := match a with | tup l => max_ l | _ => err
+def minOf (a : Val) : Val := match a with | tup l => min_ l | _ => err
+def maxOfE (a : Val) : Val := match a with | tup l => maxE l | _ => err
+def minOfE (a : Val) : Val := match a with | tup l => minE l | _ => err
+
+/-- `obj.attr = v` for the attribute stored at position `k` -/
+def setField (obj : Val) (k : Nat) (v : Val) : Val :=
+  match obj with
+  | tup l => if k < l.length then tup (l.set k v) else err
+  | _ => err
+
+/-- `[f(x) for x in src if …]`: `f` answers `none` for an item the condition rejects -/
+def comp (src : Val) (f : Val → Option Val) : Val :=
+  match iter src with
+  | some l => tup (l.filterMap f)
+  | none => err
+/-- the same when the element expression calls a function that runs on fuel -/
+def compOut (src : Val) (f : Val → Option Out) : Out :=
+  let rec go : List Val → List Val → Out
+    | [], acc => .val (tup acc.reverse)
+    | x :: xs, acc =>
+      match f x with
+      | none => go xs acc
+      | some (.val v) => go xs (v :: acc)
+      | some .fuelOut => .fuelOut
+  match iter src with
+  | some l => go l []
+  | none => .val err
+
+def set_add (s x : Val) : Val :=
+  match s with
+  | tup l => if l.any (fun v => eq x v) then tup l else tup (l ++ [x])
+  | _ => err
+def list_append (l x : Val) : Val :=
+  match l with | tup l => tup (l ++ [x]) | _ => err
+def list_copy (l : Val) : Val :=
+  match l with | tup l => tup l | _ => err
+/-- `l.remove(x)`: the first item equal to `x` (ValueError: `err`) -/
+def list_remove (l x : Val) : Val :=
+  let rec go : List Val → Option (List Val)
+    | [] => none
+    | v :: vs => if eq v x then some vs else (go vs).map (v :: ·)
+  match l with
+  | tup l => (match go l with | some r => tup r | none => err)
+  | _ => err
+def list_insert (l i x : Val) : Val :=
+  match l, i with
+  | tup l, int k =>
+    let n : Int := l.length
+    let k := if k < 0 then max (k + n) 0 else min k n
+    tup (l.take k.toNat ++ x :: l.drop k.toNat)
+  | _, _ => err
+/-- `enumerate(seq)` as a list of pairs -/
+def enumerate_ (a : Val) : Val :=
+  match a with
+  | tup l => tup (l.zipIdx.map (fun p => tup [int p.2, p.1]))
+  | _ => err
 
 end Py
 end Plotink
